@@ -85,6 +85,9 @@ pub fn run<W: Write>(out: &mut W, seed: u64, n: usize, opts: &HashMap<String, St
         let creating = a.is_none();
         let deleting = b.is_none();
         let both_names = rng.chance(30);
+        // a diff that names the file on both sides describes an empty file, not an absent one
+        let a = if creating && both_names { Some(vec![]) } else { a };
+        let b = if deleting && both_names { Some(vec![]) } else { b };
         // `diff f.orig f` never has /dev/null on the other side: the .orig style is for existing files only
         if dialect == Dialect::Orig && (creating || deleting) { dialect = Dialect::Plain; }
         let mut text = Vec::new();
